@@ -16,6 +16,7 @@ import (
 	"strconv"
 	"strings"
 	"testing"
+	"unicode/utf8"
 
 	"github.com/LiskHQ/lisk-engine/pkg/blockchain"
 	"github.com/LiskHQ/lisk-engine/pkg/codec"
@@ -34,8 +35,28 @@ func txImplication(s []byte) (bool, string) {
 	if (err == nil) != (nerr == nil) {
 		return err == nil, fmt.Sprintf("DecodeStrict err=%v but NewTransaction err=%v", err, nerr)
 	}
+	// Canonical form is decided by the package's OWN wire model (canonicalTx: parseWire with shortest varints + the field
+	// list of the transaction schema), not by the encoder under test alone: Encode(DecodeStrict(s)) == s is a round trip
+	// through two halves of the same codec and a consistent drift of both (audit 2026-09) would be mirrored by it.
+	canon, why, fields := canonicalTx(s)
 	if err != nil {
+		if canon {
+			// "strict decoding accepts its own encodings": the value with exactly these fields encodes to exactly s
+			v := &blockchain.Transaction{Module: string(fields[0].data), Command: string(fields[1].data), Nonce: fields[2].val, Fee: fields[3].val,
+				SenderPublicKey: fields[4].data, Params: fields[5].data}
+			for _, f := range fields[6:] {
+				v.Signatures = append(v.Signatures, f.data)
+			}
+			if bytes.Equal(v.Encode(), s) {
+				return false, fmt.Sprintf("DecodeStrict rejects (%v) a byte string that is canonical by the wire model and is the encoding Encode() produces for the value with these fields", err)
+			}
+			// (model and encoder disagree about this value: that is the business of the Encode()-vs-wire-model assertion on
+			// generated values in txDerivedCase, not of the acceptance rule)
+		}
 		return false, ""
+	}
+	if !canon {
+		return true, fmt.Sprintf("DecodeStrict accepted a byte string that is not canonical by the wire model (%s); it re-encodes to %x", why, tx.Encode())
 	}
 	if re := tx.Encode(); !bytes.Equal(re, s) {
 		return true, fmt.Sprintf("DecodeStrict accepted a byte string that is not its own canonical encoding: re-encodes to %x", re)
@@ -56,6 +77,41 @@ func txImplication(s []byte) (bool, string) {
 		return true, fmt.Sprintf("ID after Init() %x != %x", []byte(ntx.ID), sum[:])
 	}
 	return true, ""
+}
+
+// canonicalTx decides, with the wire model of this package alone (parseWire/readVarint/leb, no engine code), whether s is
+// the canonical wire form of a transaction: every key, length prefix and value varint in shortest form, wire types as in
+// the schema, the fields module(1, string) command(2, string) nonce(3, varint) fee(4, varint) senderPublicKey(5, bytes)
+// params(6, bytes) each exactly once and in this order, then any number of signatures(7, bytes), nothing missing, nothing
+// else, nothing trailing; strings valid UTF-8 in NFC. Returns the fields when canonical.
+func canonicalTx(s []byte) (bool, string, []wfield) {
+	fs, ok := parseWire(s, true)
+	if !ok {
+		return false, "does not parse as a sequence of wire-type 0/2 fields with shortest varints and in-bounds lengths", nil
+	}
+	if len(fs) < 6 {
+		return false, fmt.Sprintf("%d fields, a transaction has at least 6", len(fs)), nil
+	}
+	wantWT := []int{2, 2, 0, 0, 2, 2}
+	for i := 0; i < 6; i++ {
+		if fs[i].num != i+1 || fs[i].wt != wantWT[i] {
+			return false, fmt.Sprintf("field %d has number %d wire type %d, expected number %d wire type %d", i, fs[i].num, fs[i].wt, i+1, wantWT[i]), nil
+		}
+	}
+	for i := 6; i < len(fs); i++ {
+		if fs[i].num != 7 || fs[i].wt != 2 {
+			return false, fmt.Sprintf("field %d has number %d wire type %d, only signatures (7, bytes) may follow", i, fs[i].num, fs[i].wt), nil
+		}
+	}
+	for i := 0; i < 2; i++ {
+		if !utf8.Valid(fs[i].data) {
+			return false, fmt.Sprintf("string field %d is not valid UTF-8", i+1), nil
+		}
+		if nfc(string(fs[i].data)) != string(fs[i].data) {
+			return false, fmt.Sprintf("string field %d is not in NFC", i+1), nil
+		}
+	}
+	return true, "", fs
 }
 
 // ---- a tiny independent wire model --------------------------------------------------------------------------------
